@@ -172,6 +172,24 @@ def check(R):
             R.expect('P3', ra.fn, 'after flushing a chunk the same item is read again (the path iterator is not advanced first)', bool(ok_true) and not bad, 'send(..) == true -> process_read(same item)',
                      f'from {bad} the iterator advances before the pending item is retried: the item is lost')
 
+        # events: the reader moves its watermark to the last event it WROTE, so once an event did not fit nothing after it may go
+        # into the same chunk (a later, smaller event would carry the watermark past the big one: it is never delivered) -
+        # from every error edge of process_read the scan leaves the loop without fetching another event
+        ev = closure_in(R, RD + '::report_events', ['EventReader::process_read'])
+        per = ev.calls('im::events::EventReader::process_read')
+        R.floor('EventReader::process_read in report_events', len(per), 1)
+        nx_ev = [t.bb for t in ev.calls() if t.d.get('f', '').endswith('Iterator::next')]
+        R.floor('event iterator in report_events', len(nx_ev), 1)
+        tr_ev = prims.track_result(F, ev, per[0])
+        fe_ = tr_ev.failure
+        bad = []
+        for (frm, to) in sorted(fe_):
+            # the same result is tested twice (`if let Err(e) = &result` and `result?`): once it is known to be Err, its Ok edges are dead
+            if set(nx_ev) & prims.reach(ev, (to,), cut_edges=tr_ev.success):
+                bad.append(ev.where(frm))
+        R.expect('P3', ev.fn, 'after an event that could not be written (NoSpace or any error) no further event is fetched for this chunk', bool(fe_) and not bad,
+                 'error edge -> return', f'from {bad} the loop goes on to the next event: a later event that fits moves the watermark past the one that did not')
+
     # ---- d --------------------------------------------------------------------
     with R.clause('d'):
         sa = async_body(R, RD + '::send_array_items')
